@@ -55,6 +55,10 @@ func TestC05_Shield(t *testing.T) {
 		if rapid.IntRange(0, 9).Draw(t, "forever") == 0 { // the "never recover" idiom
 			F = rapid.SampledFrom([]time.Duration{math.MaxInt64, 290 * 365 * 24 * time.Hour, 100 * 365 * 24 * time.Hour}).Draw(t, "foreverDur")
 		}
+		if rapid.IntRange(0, 3).Draw(t, "oddFallback") == 0 { // not a multiple of the check period, of 100 ms, of anything round
+			F = rapid.SampledFrom([]time.Duration{7 * time.Millisecond, 15 * time.Millisecond, 25 * time.Millisecond, 75 * time.Millisecond, 130 * time.Millisecond, 250 * time.Millisecond,
+				750 * time.Millisecond, 1250 * time.Millisecond, 3333 * time.Millisecond, 1500 * time.Microsecond, 10*time.Millisecond + 300*time.Microsecond}).Draw(t, "oddFallbackDur")
+		}
 		R := genDur(t, "recovery", 2, 9)
 		P := genDur(t, "checkPeriod", 0, 6)
 		expr := rapid.SampledFrom([]string{
